@@ -134,6 +134,13 @@ where
     }
 
     fn process_index(&mut self, index: GraphIndex) -> Result<(), DbError> {
+        if self.graph.capacity()? <= index.as_u64() {
+            return Err(DbError::graph(
+                crate::DbErrorType::InvalidIndex,
+                format!("Graph index ({}) out of bounds", index.0),
+            ));
+        }
+
         if !self.visited.value(index.as_u64()) {
             if index.0 == self.destination.0 {
                 std::mem::swap(&mut self.result, &mut self.current_path.elements);
